@@ -3,6 +3,8 @@ import BfeVerif.C33.Model
 /-!
   C33 driver.   op = `cfg<isw>;` then `;`-separated
      H<id>:<decl>:<end>  D<id>:<dlen>:<pad>:<end>  R<id>:<n>  C<id>  X<id>  T<id>:<code>
+     S<v>             client SETTINGS(INITIAL_WINDOW_SIZE = v): only an ack;  U<id>:<inc> client WINDOW_UPDATE: nothing
+     cfg<isw>/<k>     the server's reads return at most k bytes (segmentation of the byte stream)
      Q<id>:<n>:<how>  the handler pulls ≤ n octets from its pipe, the serve loop processes a close first
                       (how 0 client RST_STREAM, 1 server-side reset, 2 none), then receives the bodyReadMsg
   result = one token per executed op (sorted frames `W<id>:<inc>` `R<id>:<code>` `G:<code>` `h<id>:1`,
@@ -19,6 +21,7 @@ def Fr.render : Fr → String
   | .rst id c => s!"R{id}:{c}"
   | .goaway c => s!"G:{c}"
   | .resp id => s!"h{id}:1"
+  | .ack => "A"
 
 def insStr (x : String) : List String → List String
   | [] => [x]
@@ -44,6 +47,8 @@ def parseEv (t : String) : Option Ev :=
   | "X", some [id] => some (.exit id.toNat)
   | "T", some [id, _] => some (.rst id.toNat)
   | "Q", some [id, n, how] => some (.readThenClose id.toNat n.toNat how.toNat)
+  | "S", some [v] => some (.clientSettings v.toNat)
+  | "U", some [id, inc] => some (.clientWU id.toNat inc.toNat)
   | _, _ => none
 
 def runToks : St → List Ev → List String → List String × St
@@ -238,6 +243,8 @@ def monStep (m : Mon) (e : Ev) (tok : String) : Mon :=
   | .pull .. => m
   | .deliver _ => m
   | .srvReset _ => m
+  | .clientSettings _ => (credit m fs).tag "client-settings"
+  | .clientWU .. => (credit m fs).tag "client-wu"
 
 def monitorGo : Mon → List Ev → List String → Mon
   | m, [], _ => m
@@ -260,7 +267,7 @@ def monFinish (m : Mon) : Mon :=
 def run (op impl : String) : Ans :=
   match op.splitOn ";" with
   | cfg :: rest =>
-    match (if cfg.startsWith "cfg" then (cfg.drop 3).toString.toNat? else none), rest.mapM parseEv with
+    match (if cfg.startsWith "cfg" then (((cfg.drop 3).toString.splitOn "/").headD "").toNat? else none), rest.mapM parseEv with
     | some v, some evs =>
       let isw := if v == 0 then 65535 else v
       let (toks, s) := runToks { isw := isw } evs []
